@@ -37,6 +37,7 @@ use crate::drivers::CopyDriver;
 use crate::errors::{Result, XcpError};
 use crate::feedback::{StatusUpdate, StatusUpdater};
 use crate::operations::{CopyHandle, Operation, tree_walker};
+use crate::paths::lexists;
 use libfs::{copy_file_offset, map_extents, merge_extents, probably_sparse};
 
 // ********************************************************************** //
@@ -248,7 +249,7 @@ fn dispatch_worker(file_q: cbc::Receiver<Operation>, stats: &Arc<dyn StatusUpdat
 
             Operation::Special(from, to) => {
                 info!("Dispatch[{:?}]: Special file {:?} -> {:?}", thread::current().id(), from, to);
-                if to.try_exists()? {
+                if lexists(&to)? {
                     if config.no_clobber {
                         return Err(XcpError::DestinationExists("Destination file exists and --no-clobber is set.", to).into());
                     }
